@@ -1,6 +1,7 @@
 """C13 — custom chunks: any number set, all retrievable, audio untouched."""
 import json, os, subprocess, time
 from .. import chunks as C
+from .. import absmeta as A
 from ..core import Violation, VERIF, modules_for
 
 PRINTABLE = bytes(range(0x21, 0x7f))
@@ -297,8 +298,9 @@ def same(model, impl):
     return True
 
 
-def replay_text(why, script, expect=None):
-    return "# C13: %s\n%s--- script\n%s" % (why, ("expect-last %s\n" % expect) if expect else "", script)
+def replay_text(why, script, expect=None, geom=None):
+    """`abs-chunk geom …` makes `bin/check C13 --replay f` re-judge the record with the Lean predicate (vlib/absmeta.py replay_c13)"""
+    return "# C13: %s\n%s%s--- script\n%s" % (why, ("expect-last %s\n" % expect) if expect else "", ("abs-chunk %s\n" % geom) if geom else "", script)
 
 
 def check_known(ctx):
@@ -371,6 +373,8 @@ def custom_only(lines, ids):
 
 def run(ctx):
     if getattr(ctx, "replay", None):
+        if A.is_chunk_replay(ctx.replay):
+            return A.replay_c13(ctx, ctx.replay)
         return ctx.replay_script(ctx.replay)
     failed = ctx.lean_stage(modules_for("C13"))
     found_input = False
@@ -382,7 +386,17 @@ def run(ctx):
     found_input = bool(ctx.violations)
 
     S = gen_scripts(ctx)
-    impl = ctx.batch([(n, s) for (n, k, c, s, m) in S], op_timeout=20, workers=4)
+    # the twin of a script: the same session without any sf_set_chunk ("without disturbing audio or other metadata"); many scripts share one
+    twin_of, twin_scripts = {}, {}
+    for (n, k, c, s, m) in S:
+        if k != "size-beyond-cache":
+            t = A.chunk_twin_script(s)
+            twin_of[n] = twin_scripts.setdefault(t, "twin!%d" % len(twin_scripts))
+    impl = ctx.batch([(n, s) for (n, k, c, s, m) in S] + [(tn, t) for t, tn in twin_scripts.items()], op_timeout=20, workers=4)
+    twin_text = {tn: t for t, tn in twin_scripts.items()}
+    # THE PREDICATE: Sf.AbsMeta.Chunks.judge decides (`sfmodel abs-meta chunks`); `predicate` below is the Python cross-check
+    verdicts = A.judge_c13(ctx, [(n, c, m, s, impl.get(n, ["<no output>"]), (twin_text[twin_of[n]], impl.get(twin_of[n], [])) if n in twin_of else None)
+                                 for (n, k, c, s, m) in S])
     model = model_lines(ctx, [(n, s) for (n, k, c, s, m) in S])
     kinds = {}
     waived = {}
@@ -430,7 +444,7 @@ def run(ctx):
         if classes and not all(cl in PREDICTED for cl in classes):
             # outside the domain of the round-trip theorem: only the calls the model still predicts (sf_set_chunk results) are compared
             nset = sum(1 for op, _ in pairs if op[0] == "setchunk")
-            why = predicate(cont, script, pairs, meta)
+            why = A.combine_c13(ctx, name, verdicts.get(name), predicate(cont, script, pairs, meta))
             if not same(ml[1:1 + nset], il[:nset]):
                 # the library now answers these calls differently from the model (e.g. refuses them).  That is an alarm
                 # only if the property is violated on this transcript.
@@ -443,9 +457,9 @@ def run(ctx):
             if why and unknown:
                 found_input = True
                 v("class-" + name, replay_text("%s: %s; class(es) of the script: %s (%s)" % (name, why, ",".join(unknown),
-                                  "no known finding covers them" if not any(cl in CLASS_TO_KF for cl in unknown) else "the known finding no longer reproduces with its signature"), script))
+                                  "no known finding covers them" if not any(cl in CLASS_TO_KF for cl in unknown) else "the known finding no longer reproduces with its signature"), script, geom=A.chunk_geom(cont, meta)))
             continue
-        why = predicate(cont, script, pairs, meta)
+        why = A.combine_c13(ctx, name, verdicts.get(name), predicate(cont, script, pairs, meta))
         mcmp, icmp = ml[1:], il
         if meta.get("strings"):
             ids = [i for (i, _) in meta["chunks"]]
@@ -456,7 +470,7 @@ def run(ctx):
             continue
         if why:
             found_input = True
-            v("prop-" + name, replay_text("%s (%s): %s" % (name, cont, why), script))
+            v("prop-" + name, replay_text("%s (%s): %s" % (name, cont, why), script, geom=A.chunk_geom(cont, meta)))
             continue
         ml, il = [ml[0]] + mcmp, icmp
         if why is None and not same(ml[1:], il):
